@@ -39,6 +39,9 @@ func runC04(w *World, r *Report) {
 		c03Tables(w, r)
 	}, map[string]string{"R9": "R6", "R2": "R6", "R4": "R6"})
 	hrFoundIsMonotone(w, r, "R6")
+	hrSetTypeStores(w, r, "R6")
+	hrSystemFlowsLookedUpAlways(w, r, "R6")
+	hrCfgEarlyResponseNotFedBack(w, r, "R6")
 	hrAddConnections(w, r, "R8")
 	hrMeasureReturnsError(w, r, "R1")
 	ef := w.Fn(pkgStream, "Stream.ExecuteFlow")
@@ -828,7 +831,7 @@ func c04BuilderHelpers(w *World, r *Report) {
 		r.Undec("R7", "FlowDirection.setAsRoot", token.NoPos, "function not found")
 	} else {
 		st := fieldStores(sr, "root")
-		ok := len(st) == 1 && st[0].Val == ssa.Value(sr.Params[1]) && len(CondsOf(st[0].Block())) == 0
+		ok := len(st) == 1 && st[0].Val == ssa.Value(sr.Params[1]) && len(CondsOf(st[0].Block())) == 0 && alwaysRuns(st[0])
 		r.Check(ok, "R7", "setAsRoot/replaces-unconditionally", sr.Pos(), "setAsRoot stores the given entry point into fd.root on every call")
 	}
 	if pr := w.Fn(pkgSCfg, "ProcessorRef.parseRef"); pr == nil {
